@@ -164,16 +164,20 @@ def _sample_condition(exp_condition, frametimes, oversampling=16,
     hr_frametimes : array of shape(n)
         frametimes corresponding to regressor
     """
-    # Find the high-resolution frametimes
+    # Find the high-resolution frametimes: a regular grid of step
+    # tr / oversampling that contains every frame time (the run need not start
+    # at time 0). It starts a whole number of steps before the first scan, at
+    # or before frametimes.min() + min_onset (truncating the number of samples
+    # instead would change the step, so that scans fall between grid points),
+    # and stops one scan after the last one.
     n = frametimes.size
     min_onset = float(min_onset)
-    # one more scan after the last one (the run need not start at time 0)
-    stop = frametimes.max() + (frametimes.max() - frametimes.min()) * 1. / (n - 1)
-    n_hr = ((n - 1) * 1. / (frametimes.max() - frametimes.min()) *
-            (stop - frametimes.min() - min_onset) * oversampling) + 1
-
-    hr_frametimes = np.linspace(frametimes.min() + min_onset, stop,
-                                int(n_hr))
+    t_min, t_max = float(frametimes.min()), float(frametimes.max())
+    tr = (t_max - t_min) / (n - 1)
+    dt = tr / oversampling
+    n_pre = int(np.ceil(-min_onset / dt))
+    hr_frametimes = np.linspace(t_min - n_pre * dt, t_max + tr,
+                                n_pre + n * oversampling + 1)
 
     # Get the condition information
     onsets, durations, values = tuple(map(np.asanyarray, exp_condition))
